@@ -378,6 +378,12 @@ type fsOutcome struct {
 // runFsCall materialises `pre`, performs the last call of the history on the real library (in a worker
 // process: dry-run reports go to the process-wide color.Output) and snapshots the jail.
 func runFsCall(pool *wproto.Pool, s *fsState, c *tok.Conc, massive, alias bool) (*fsOutcome, error) {
+	return runFsCallVia(pool, s, c, massive, alias, "")
+}
+
+// runFsCallVia: linkRoot != "" moves the directory t/<linkRoot> aside and leaves a symbolic link to it in its place
+// before the call (what exists behind a link exists: Stat follows it)
+func runFsCallVia(pool *wproto.Pool, s *fsState, c *tok.Conc, massive, alias bool, linkRoot string) (*fsOutcome, error) {
 	j, err := newJail()
 	if err != nil {
 		return nil, err
@@ -385,6 +391,15 @@ func runFsCall(pool *wproto.Pool, s *fsState, c *tok.Conc, massive, alias bool) 
 	defer j.close()
 	if err := j.materialise(s.Pre, c); err != nil {
 		return nil, err
+	}
+	if linkRoot != "" {
+		at := filepath.Join(j.root, "t", linkRoot)
+		if err := os.Rename(at, filepath.Join(j.root, "moved-aside")); err != nil {
+			return nil, err
+		}
+		if err := os.Symlink(filepath.Join("..", "moved-aside"), at); err != nil {
+			return nil, err
+		}
 	}
 	call := s.Hist[len(s.Hist)-1]
 	rq := wproto.Req{Op: call.Op, Target: filepath.Join(j.root, "t"), Massive: massive, DryRun: call.Dry, Strict: call.Strict, Alias: alias,
